@@ -258,8 +258,8 @@ def run(tier, seed, replay):
         "iter_lines_over_an_empty_page_with_cursor": iter_over_empty,
         "iter_lines_over_a_shortened_page_with_cursor": iter_over_short,
         "iterrun_lines_over_an_empty_page_with_cursor": iterrun_over_empty}
-    if not replay and (iter_over_empty == 0 or iterrun_over_empty == 0 or iter_over_short == 0):
-        raise vlib.MachineryError("vacuity: no iterator run crossed a page that arrived empty/shortened with a cursor: %r" % v.cov["filtered"])
+    # (decided after the monitor has judged the log: on a changed tree the same cause may show up as a violation)
+    vacuous_filter = not replay and (iter_over_empty == 0 or iterrun_over_empty == 0 or iter_over_short == 0)
     cls = {}
     for r in obs_rows:
         if r.get("ev") == "cursor":
@@ -326,6 +326,8 @@ def run(tier, seed, replay):
             json.dumps({k: e.get(k) for k in ("ev", "cls", "op", "hid", "ids", "more", "err", "seq", "man", "trav", "alive", "panic") if e.get(k) not in (None, "", [])})[:400]), rep)
 
     phase("monitor")
+    if vacuous_filter and not v.violations:
+        raise vlib.MachineryError("vacuity: no iterator run crossed a page that arrived empty/shortened with a cursor: %r" % v.cov["filtered"])
     if exhausted and not v.violations:
         raise vlib.MachineryError("the harness process crashed more than %d times (all known findings): coverage incomplete" % MAX_RESTARTS)
     v.cov["harness_restarts_exhausted"] = exhausted
